@@ -12,7 +12,9 @@
      validatePluginName, CLIManager.Get, CLIManager.Uninstall, CLIManager.Install,
      parsePluginFromDir, parsePluginName, isExecutableFile, setExecutable,
      NewCLIPlugin, CLIPlugin.GetMetadata (its outcome class), file.CopyToDir,
-     file.CopyDirToDir, CLIManager.List, getVerificationPlugin.
+     file.CopyDirToDir, CLIManager.List, extractCriticalStringExtendedAttribute,
+     getVerificationPlugin (strings.TrimSpace on UTF-8), the part of
+     processSignature before and including pluginManager.Get (verify_plan).
    Inputs (oracle facts, not modelled): what a plugin executable prints when it
    is run (node field [m]); comparison of the two plugin versions (versions are
    1.0.<v>, compared through [v]); the kernel's path resolution (ENOENT /
